@@ -261,7 +261,7 @@ func (r *run) input(seed int) {
 		if c.Sc == "other" {
 			pt.Scale = p.NewScale(3)
 		}
-		if c.F == "coef" {
+		if c.F == "coef" || c.F == "permenc" {
 			pt.IsBatched = false
 		}
 		tr.Must(r.becd.Encode(r.msgB, pt))
@@ -298,8 +298,16 @@ func (r *run) input(seed int) {
 
 // checkB: does ct decrypt (under sk) and decode (with its recorded metadata) to want; noise in bits, times t.
 func (r *run) checkB(ct *rlwe.Ciphertext, sk *rlwe.SecretKey, want []uint64) (ok bool, noise int) {
+	return r.checkBAs(ct, sk, want, nil)
+}
+
+// checkBAs: as checkB, reading the plaintext as slots (true) or coefficients (false) when batched is given.
+func (r *run) checkBAs(ct *rlwe.Ciphertext, sk *rlwe.SecretKey, want []uint64, batched *bool) (ok bool, noise int) {
 	p := *r.s.bgv
 	pt := rlwe.NewDecryptor(p, sk).DecryptNew(ct)
+	if batched != nil {
+		pt.IsBatched = *batched
+	}
 	have := make([]uint64, p.MaxSlots())
 	if err := r.becd.Decode(pt, have); err != nil {
 		return false, 999
@@ -558,7 +566,7 @@ func (r *run) applyB(v []uint64) []uint64 {
 		for i := range out {
 			out[i] = (out[i] * 3) % t
 		}
-	case "perm":
+	case "perm", "permdec", "permenc":
 		for i := range out {
 			out[i] = v[(i+1)%len(v)]
 		}
@@ -590,8 +598,9 @@ func (r *run) bgvFunc() *mpbgv.MaskedTransformFunc {
 		return nil
 	}
 	t := r.s.bgv.PlaintextModulus()
-	dec := r.c.F != "coef"
-	return &mpbgv.MaskedTransformFunc{Decode: dec, Encode: dec, Func: func(c []uint64) {
+	dec := r.c.F != "coef" && r.c.F != "permenc"
+	enc := r.c.F != "coef" && r.c.F != "permdec"
+	return &mpbgv.MaskedTransformFunc{Decode: dec, Encode: enc, Func: func(c []uint64) {
 		switch r.c.F {
 		case "neg":
 			for i := range c {
@@ -601,7 +610,7 @@ func (r *run) bgvFunc() *mpbgv.MaskedTransformFunc {
 			for i := range c {
 				c[i] = (c[i] * 3) % t
 			}
-		case "perm":
+		case "perm", "permdec", "permenc":
 			// the function sees the whole plaintext vector; rotate the first len(msg) entries
 			n := len(r.msgB)
 			first := c[0]
@@ -671,8 +680,16 @@ func (r *run) protoRefreshB() *proto {
 			if err := pr.Transform(r.ct, f, crp, *s.(*multiparty.RefreshShare), out); err != nil {
 				return final{}, err
 			}
-			if r.c.F == "coef" {
+			switch r.c.F {
+			case "coef":
 				return r.judge(out, r.ideal, false), nil
+			case "permdec", "permenc":
+				// Decode only: the output carries f(slots) as coefficients; Encode only: f(coefficients) as slots
+				asSlots := r.c.F == "permenc"
+				fin := final{lvl: out.Level()}
+				fin.same, fin.noise = r.checkBAs(out, r.ideal, r.applyB(r.msgB), &asSlots)
+				fin.scaleOK = fin.same
+				return fin, nil
 			}
 			return r.judge(out, r.ideal, f != nil), nil
 		},
